@@ -57,6 +57,12 @@ CHECKS = {
         text="ThrottleExecutor over a manual base (completion order is a program choice) or a thread pool, with a recording tap below it: at every hand-over the number handed to the delegate and not yet done must be <= the bound in force (static, or the recent values of a scripted count callable; None unlimited; a raise keeps the last value); delegate submissions follow submit order; whenever virtual time is about to advance nothing may be queued while capacity is free (so no +2 s/+30 s hand-overs); block=True submit() works for every count and is parked only while the queue holds >= count entries.",
         design_ref="DESIGN.md section 4 (C07)", note=ENGINE_NOTE),
 
+    "C08": dict(
+        category="exploration",
+        technique="history-invariant property testing: Hypothesis-drawn poll/cancel-function scripts, completion, cancel and notify times with tapes, plus exhaustive single-pre-emption sweeps of same-instant programs, under the deterministic scheduler with an exact virtual clock; oracle = may/must descriptor sets, first-yield, raise-fails-shown, promptness and cancel-veto predicates over the totally ordered history",
+        text="PollExecutor over a manual base (delegate completions are program steps): poll calls never overlap; every call's descriptor list is checked against what must be present (delegate finished and nothing resolved it before the call began), what must be absent (resolved by a yield or a successful cancel before the call began; failed/unfinished delegates), duplicates and result payloads; first yield wins; a raising call fails exactly its unresolved descriptors; a new eligibility or notify() is followed by a poll within 0.01 virtual seconds; the cancel function is consulted only in the polling stage with the delegate's result and False/raise vetoes. Two known findings (snapshot-to-invocation window) are excluded by signature.",
+        design_ref="DESIGN.md section 4 (C08), section 7", note=ENGINE_NOTE),
+
     "C09": dict(
         category="exploration",
         technique="property-based testing with an exact virtual clock: Hypothesis-drawn sets of futures with mixed default/per-call timeouts, submission times, completions and user cancels (plus exhaustive single-pre-emption sweeps of catalogue programs); oracle = deadline windows over the recorded virtual times of every cancel() reaching the returned futures",
